@@ -17,7 +17,7 @@ use std::time::Duration;
 pub static INFO: PropInfo = PropInfo {
     id: "C20",
     level: "exploration",
-    rule: "one evaluation = one session of the real NetcodeServerTransport and 1-5 NetcodeClientTransports over 127.0.0.1 UDP sockets, single-threaded with virtual durations, through an in-path relay (one front socket the clients believe is the server, one back socket per client) that applies a seeded schedule to the real datagrams: drop, duplicate, delay / reorder, replay of old datagrams, bit corruption; applications submit messages on all three channel kinds both ways, disconnect from either side / either layer at seeded ticks, and reconnect with the same client id; secure and unsecure authentication; in a third of the secure runs the connect tokens live 2-8 s only, so sessions outlive the token they were established with (a client whose token ran out before it connected is owed nothing). Oracles: right after every NetcodeServerTransport::update the server has no disconnected-but-present connection, the message layer's connected ids equal the ids the transport has an address for, and both counts agree; ServerEvents per id alternate Connected/Disconnected starting with Connected; every application- or peer-initiated disconnect is visible on the other side within timeout + 1 s of virtual time; every obtained message is a byte-identical submission of the same client / channel, in order on ordered channels and at most once on reliable ones; in interference-only runs (every timeout window sees a genuine datagram delivered each way) no session ends unless an application asked for it; every datagram seen by the relay is <= 1400 bytes. Non-trivial = the relay interfered (drop/dup/delay/replay/corrupt) AND at least one client connected AND at least one disconnect was propagated; distinct = fingerprints of the session history (connects, disconnects, message counts). Half of the same-id reconnects of secure runs reach the server from the SAME address as the previous session (the relay keeps its socket: a NAT mapping that is still there), and the relay replays the recorded connection request of the previous token (still valid, sealed for this server) into the new session up to three times: it is not this session's business and ends nothing. Client transports count time from their own origin (sometimes an hour or a day ahead of the server). One client in eight runs is MISCONFIGURED: built with one send channel more than the server knows; its first message on that channel makes the server's message layer drop the connection while the transport is reading the socket, and right after that very update both layers must agree. In a quarter of the runs a STRANGER (no token, no handshake) sends the server's socket one to four datagrams every tick, zero-length ones and a single byte: they belong to nobody and hold nobody up. In a fifth of the hostile runs one client is HASTY: the relay holds its Response datagrams back, its application disconnects as soon as one has left, and the relay releases the responses together with the Disconnect datagram - the server sees the completed handshake and its end within one transport update and must report ClientConnected before ClientDisconnected. In half of the clean-relay runs one client (with an id of its own) is MUTED: the relay drops every server-to-client session datagram for it, so the server holds its session while the client is still answering the challenge; its application then disconnects (client or transport API) and the server side must be gone within 6 ticks. A quarter of the runs end their fault phase with a SERVER SHUTDOWN: 0-2 message-layer kicks (RenetServer::disconnect) are left pending and NetcodeServerTransport::disconnect_all is called in the same frame; the netcode layer must be empty at once, every session gets its ClientDisconnected and every client ends. At the end of every run the last event per id must agree with both layers. A third of the runs also have a HOST PLAYER: a local client of the same RenetServer (new_local_client, pumped with process_local_client every tick after the transport's send_packets) exchanging ordered messages with the server; it has no netcode session (excluded from the lock-step comparison), must never be reported disconnected, and its ordered streams must be complete and in order at the end of the run. One run in 16 is a VANISHED-SERVER run instead: one client (its UDP socket connected to the server's address in 2 of 3 runs) and a server transport, direct; after some traffic the server transport is dropped (socket closed) and the client, still being updated and still sending, must be disconnected within timeout + 1 s of virtual time. During the fault phase the client limit is changed at run time now and then (set_max_clients(1..8), also below the number connected): the lock-step comparison must keep holding, nobody loses a session for it. A quarter of the runs with two or more clients are CROWDED: one slot too few at first, so somebody is denied; the relay holds half of the ConnectionDenied datagrams back, the server application frees a slot at tick 10, and a client that got in afterwards is shown its stale denial, which must not end its session. One run in 20 is a TWO-SERVERS run: a token lists two servers sharing the private key on one host; the first (behind a relay socket) accepts the client and streams, but everything after its challenge is held back; the client fails over to the second server; then the held datagrams of the first are delivered from the first address: the client application must obtain only what the second server submitted.",
+    rule: "one evaluation = one session of the real NetcodeServerTransport and 1-5 NetcodeClientTransports over 127.0.0.1 UDP sockets, single-threaded with virtual durations, through an in-path relay (one front socket the clients believe is the server, one back socket per client) that applies a seeded schedule to the real datagrams: drop, duplicate, delay / reorder, replay of old datagrams, bit corruption; applications submit messages on all three channel kinds both ways, disconnect from either side / either layer at seeded ticks, and reconnect with the same client id; secure and unsecure authentication; in a third of the secure runs the connect tokens live 2-8 s only, so sessions outlive the token they were established with (a client whose token ran out before it connected is owed nothing). Oracles: right after every NetcodeServerTransport::update the server has no disconnected-but-present connection, the message layer's connected ids equal the ids the transport has an address for, and both counts agree; ServerEvents per id alternate Connected/Disconnected starting with Connected; every application- or peer-initiated disconnect is visible on the other side within timeout + 1 s of virtual time; every obtained message is a byte-identical submission of the same client / channel, in order on ordered channels and at most once on reliable ones; in interference-only runs (every timeout window sees a genuine datagram delivered each way) no session ends unless an application asked for it; every datagram seen by the relay is <= 1400 bytes. Non-trivial = the relay interfered (drop/dup/delay/replay/corrupt) AND at least one client connected AND at least one disconnect was propagated; distinct = fingerprints of the session history (connects, disconnects, message counts). Half of the same-id reconnects of secure runs reach the server from the SAME address as the previous session (the relay keeps its socket: a NAT mapping that is still there), and the relay replays the recorded connection request of the previous token (still valid, sealed for this server) into the new session up to three times: it is not this session's business and ends nothing. Client transports count time from their own origin (sometimes an hour or a day ahead of the server). One client in eight runs is MISCONFIGURED: built with one send channel more than the server knows; its first message on that channel makes the server's message layer drop the connection while the transport is reading the socket, and right after that very update both layers must agree. In a quarter of the runs a STRANGER (no token, no handshake) sends the server's socket one to four datagrams every tick, zero-length ones and a single byte: they belong to nobody and hold nobody up. In a fifth of the hostile runs one client is HASTY: the relay holds its Response datagrams back, its application disconnects as soon as one has left, and the relay releases the responses together with the Disconnect datagram - the server sees the completed handshake and its end within one transport update and must report ClientConnected before ClientDisconnected. In half of the clean-relay runs one client (with an id of its own) is MUTED: the relay drops every server-to-client session datagram for it, so the server holds its session while the client is still answering the challenge; its application then disconnects (client or transport API) and the server side must be gone within 6 ticks. A quarter of the runs end their fault phase with a SERVER SHUTDOWN: 0-2 message-layer kicks (RenetServer::disconnect) are left pending and NetcodeServerTransport::disconnect_all is called in the same frame; the netcode layer must be empty at once, every session gets its ClientDisconnected and every client ends. At the end of every run the last event per id must agree with both layers. A third of the runs also have a HOST PLAYER: a local client of the same RenetServer (new_local_client, pumped with process_local_client every tick after the transport's send_packets) exchanging ordered messages with the server; it has no netcode session (excluded from the lock-step comparison), must never be reported disconnected, and its ordered streams must be complete and in order at the end of the run. One run in 16 is a VANISHED-SERVER run instead: one client (its UDP socket connected to the server's address in 2 of 3 runs) and a server transport, direct; after some traffic the server transport is dropped (socket closed) and the client, still being updated and still sending, must be disconnected within timeout + 1 s of virtual time. During the fault phase the client limit is changed at run time now and then (set_max_clients(1..8), also below the number connected): the lock-step comparison must keep holding, nobody loses a session for it. A quarter of the runs with two or more clients are CROWDED: one slot too few at first, so somebody is denied; the relay holds half of the ConnectionDenied datagrams back, the server application frees a slot at tick 10, and a client that got in afterwards is shown its stale denial, which must not end its session. One run in 20 is a TWO-SERVERS run: a token lists two servers sharing the private key on one host; the first (behind a relay socket) accepts the client and streams, but everything after its challenge is held back; the client fails over to the second server; then the held datagrams of the first are delivered from the first address: the client application must obtain only what the second server submitted. One run in 24 has TIMEOUTS DISABLED (token timeout -1, -5 or i32::MIN): one client and the server transports, direct; after some traffic one side is not updated for 1.5-8 s of the other side's virtual time; nobody may be disconnected, no ClientDisconnected may be reported, and ordered messages submitted after the pause arrive both ways. An identified unreliable message is obtained at most once across the full stack (its datagrams are generated once and netcode surfaces each at most once).",
     assumptions: &[
         "single-threaded endpoints, loopback delivery is effectively synchronous; a datagram the relay misses arrives one tick later (a legal delay)",
         "bounds are on virtual time (durations passed to update), never wall-clock",
